@@ -70,7 +70,8 @@ InitCtx(r) ==
     prevMem |-> <<0, 0>>, prevTrk |-> <<>>, prevSnap |-> <<>>,
     attr |-> [q \in 0..(r.nq - 1) |-> <<>>],
     batches |-> <<>>, embeds |-> {},
-    crashfree |-> r.prepop = 0, sub |-> FALSE, subprops |-> {}, step |-> 0, dead |-> FALSE ]
+    crashfree |-> r.prepop = 0, sub |-> FALSE, subprops |-> {}, step |-> 0, dead |-> FALSE,
+    amb |-> FALSE ]
 
 NoCtx == [run |-> -1]
 
@@ -187,6 +188,29 @@ FilesViol(r, c, attr2, fileAtStart) ==
       \cup (IF Len(fs) > 0 /\ fs[1] < bound THEN {"a WAL file older than every retained record survives"} ELSE {})
       \cup (IF r.st.disk # Len(fs) * FileSize THEN {"disk_used_bytes differs from the files' total size"} ELSE {})
 
+(* C06 "and after open", for an open that recovers a process-crash image of a crash-free history.      *)
+(* Retained records keep the attribution they had before the crash (records of a recovered in-flight   *)
+(* append: the file being written when the call began); the file "being written when open began" is    *)
+(* the one in which recovery leaves the writer before its own GC pass (the seek event of the recovery). *)
+FilesViolCrash(r, c) ==
+  IF r.out # "ok" \/ ~c.crashfree \/ r.model # "process" \/ ~c.hasPrev THEN {}
+  ELSE LET x == StAbs(r.st, c.nq)
+           fileOf(q, rec) ==
+              LET is == IF c.qm[q].a THEN {i \in 1..Len(c.qm[q].recs) : c.qm[q].recs[i] = rec /\ i <= Len(c.attr[q])} ELSE {}
+              IN IF is = {} THEN c.prevW[1] ELSE c.attr[q][CHOOSE i \in is : TRUE]
+           used == UNION { {fileOf(q, x[q].recs[j]) : j \in 1..Len(x[q].recs)} : q \in {q \in QIds(c) : x[q].a} }
+           seeks == {i \in 1..Len(r.io) : r.io[i].e = "SK"}
+           resume == IF seeks = {} THEN -1 ELSE r.io[CHOOSE i \in seeks : \A j \in seeks : i <= j].f
+           all == used \cup (IF resume = -1 THEN {} ELSE {resume})
+           bound == IF all = {} THEN -1 ELSE CHOOSE f \in all : \A g \in all : f <= g
+           fs == r.st.files
+           w == r.st.w[1]
+       IN  (IF Len(fs) = 0 \/ fs[Len(fs)] # w \/ \E i \in 1..(Len(fs) - 1) : fs[i + 1] # fs[i] + 1
+            THEN {"after recovery: WAL files are not a contiguous run ending at the writer's file"} ELSE {})
+      \cup (IF Len(fs) > 0 /\ bound # -1 /\ fs[1] < bound
+            THEN {"after recovery: a WAL file older than every retained record and than the file recovery resumed in survives"} ELSE {})
+      \cup (IF r.st.disk # Len(fs) * FileSize THEN {"after recovery: disk_used_bytes differs from the files' total size"} ELSE {})
+
 (* --- crash monitors (C02, C03, C12, C04) --- *)
 InPend(x, pend) ==
   \E i \in 1..Len(pend) : x = pend[i].st \/ x \in PartialApps(pend[i].st, pend[i].op)
@@ -238,7 +262,8 @@ CrashViol(r, c) ==
    \cup (IF ~ok THEN {<<"C03", "recovered state is older than the last persisted point (" \o r.model \o ")">>} ELSE {})
    \cup {<<"C12", m>> : m \in BatchViol(x, batches2)}
    \cup (IF AlwaysPolicy(c.policy) /\ r.model = "process"
-         THEN {<<"C04", m>> : m \in PosViolState(r.st, asg2, c)} ELSE {})
+         THEN {<<"C04", m>> : m \in PosViolState(r.st, asg2, c) \cup PosViolGone(r.st, asg2, c.qm, c)} ELSE {})
+   \cup {<<"C06", m>> : m \in FilesViolCrash(r, c)}
 
 Tag(prop, S) == {<<prop, m>> : m \in S}
 
@@ -445,13 +470,22 @@ TrEnd ==
          \* queues shifts the cursor by a few bytes from run to run); whether files are RECLAIMED as C06 demands is
          c06v == IF ~fatal /\ call.op \in {"truncate", "delete", "restart"} /\ (executed \/ isRestart)
                  THEN FilesViol(R, c, attr2, w0file) ELSE {}
-         obs == ObsOf(R) @@ [c06 |-> c06v]
+         \* the cursor and the file set are compared across policies as long as the history is deterministic
+         \* at the byte level: a call that recorded the positions of two or more empty queues wrote them in
+         \* HashMap order, which can move padding and frame splits (hence the cursor) by a few bytes
+         amb2 == c.amb \/ (("ent" \in DOMAIN R) /\ Cardinality({i \in 1..Len(R.ent) : R.ent[i][1] = "pos"}) >= 2)
+         obs == ObsOf(R) @@ [c06 |-> c06v, amb |-> amb2,
+                             w |-> IF hasSt THEN <<R.st.w[1], R.st.w[2]>> ELSE <<>>,
+                             files |-> IF hasSt THEN R.st.files ELSE <<>>]
          V14 == IF c.c14 = 2 /\ ~c.sub THEN
                    IF c.step + 1 > Len(refObs) THEN {<<"C14", "run longer than its reference run">>}
-                   ELSE IF [x \in DOMAIN refObs[c.step + 1] \ {"c06"} |-> refObs[c.step + 1][x]] # ObsOf(R)
+                   ELSE IF [x \in DOMAIN refObs[c.step + 1] \ {"c06", "amb", "w", "files"} |-> refObs[c.step + 1][x]] # ObsOf(R)
                         THEN {<<"C14", "result or state differs from the same call under another policy">>}
                    ELSE IF refObs[c.step + 1].c06 # c06v
                         THEN {<<"C14", "reclamation of WAL files differs from the same call under another policy">>}
+                   ELSE IF ~amb2 /\ ~refObs[c.step + 1].amb /\ ~fatal /\ hasSt /\
+                           (refObs[c.step + 1].w # obs.w \/ refObs[c.step + 1].files # obs.files)
+                        THEN {<<"C14", "writer position or WAL file set differs from the same call under another policy">>}
                    ELSE {}
                 ELSE {}
          V == Lift(c, V0 \cup V14)
@@ -464,7 +498,7 @@ TrEnd ==
         /\ nviol' = nviol + Cardinality(V)
         /\ refObs' = IF c.c14 = 1 /\ ~c.sub THEN Append(refObs, obs) ELSE refObs
         /\ ctx' = IF fatal THEN [c EXCEPT !.dead = TRUE, !.cur = NoCall]
-                  ELSE LET c1 == [c EXCEPT !.qm = qm2, !.asg = asg2, !.cur = NoCall, !.attr = attr2,
+                  ELSE LET c1 == [c EXCEPT !.qm = qm2, !.asg = asg2, !.cur = NoCall, !.attr = attr2, !.amb = amb2,
                                            !.pendP = newPend(@, "process"), !.pendW = newPend(@, "power"),
                                            !.batches = IF executed /\ call.op = "append" THEN Append(@, BatchOf(c.qm, call))
                                                        ELSE IF executed THEN TruncBatches(@, call) ELSE @,
